@@ -65,6 +65,22 @@ func handwrittenCases() []handwritten {
 		}
 		return c
 	}
+	// the same, but the init code first forwards part of its endowment to an existing account
+	// (two balances besides the payer's change): the untraced classification needs the traced re-run
+	createOOGForward := func() *evmgen.Case {
+		c := createOOG()
+		a := evmgen.NewAsm()
+		a.Push(0).Push(0).Push(0).Push(0).Push(1000).PushAddr(u.EOAs[1].Addr).Op(vm.GAS, vm.CALL, vm.POP)
+		a.Push(20000).Push(0).Op(vm.RETURN)
+		c.Tx.Data, c.Tx.DataNote = a.Assemble().Code, "init: send 1000 to an account, RETURN 20000 zero bytes"
+		c.Tx.Gas = 900000
+		al := types.AccessList{{Address: u.EOAs[1].Addr}}
+		if addr, ok := evmgen.PredictCreateAddress(u.EOAs[4].Addr, 0, c.Tx.Data, c.Env.BlockNumber); ok {
+			al = append(al, types.AccessTuple{Address: addr})
+		}
+		c.Tx.AccessList, c.Tx.ALClass = al, "created"
+		return c
+	}
 	wrapETX := func() *evmgen.Case {
 		value := new(big.Int).Sub(two256, big.NewInt(21000-5))
 		return handCase(pre, big.NewInt(5000), func(a *evmgen.Asm) {
@@ -82,6 +98,7 @@ func handwrittenCases() []handwritten {
 		// ---- known findings ---------------------------------------------------------------------
 		{"CreateCodeStoreOOG", []string{fpOOG}, "tx-failed", createOOG},
 		{"CreateCodeStoreOOGUntraced", []string{fpOOG}, "tx-failed", func() *evmgen.Case { return untraced(createOOG()) }},
+		{"CreateCodeStoreOOGForwardUntraced", []string{fpOOG}, "tx-failed", func() *evmgen.Case { return untraced(createOOGForward()) }},
 		{"LegacyWrapETX", []string{fpWrapETX}, "exports", wrapETX},
 		{"LegacyWrapETXUntraced", []string{fpWrapETX}, "exports", func() *evmgen.Case { return untraced(wrapETX()) }},
 		{"LegacyWrapConvert", []string{fpWrapConvert}, "exports", wrapConvert},
